@@ -932,7 +932,7 @@ func (fr *Frame) frameLookup(name string, st *State, override map[string]*Val) (
 			}
 		}
 	}
-	if e, ok := fr.env[name]; ok {
+	if e, ok := fr.resolveName(name); ok {
 		if e.isAddr {
 			pt := e.v.Type().Underlying().(*types.Pointer)
 			return fr.ex.load(st, fr.val(e.v).T, fr.ex.ls.of(pt.Elem()), fr.ex.P.addrHint(e.v), true), pt.Elem(), true
@@ -957,6 +957,46 @@ func (fr *Frame) frameLookup(name string, st *State, override map[string]*Val) (
 		}
 	}
 	return nil, nil, false
+}
+
+// resolveName finds the SSA value a source variable denotes at the lookup
+// point (fr.lookBlock, at its end or at its entry): the nearest DebugRef of a
+// variable of that name, or phi labelled with it, scanning backwards through
+// the block and then up the dominator tree. A phi in a nearer dominator
+// always wins over an older DebugRef, so the value is never stale.
+func (fr *Frame) resolveName(name string) (envEnt, bool) {
+	b := fr.lookBlock
+	if b == nil {
+		return envEnt{}, false
+	}
+	first := true
+	for ; b != nil; b = b.Idom() {
+		instrs := b.Instrs
+		for i := len(instrs) - 1; i >= 0; i-- {
+			switch x := instrs[i].(type) {
+			case *ssa.Phi:
+				if x.Comment == name {
+					if _, has := fr.vals[x]; has {
+						return envEnt{x, false}, true
+					}
+				}
+			case *ssa.DebugRef:
+				if first && !fr.lookAtEnd {
+					continue
+				}
+				if obj, ok := x.Object().(*types.Var); ok && obj.Name() == name {
+					if _, has := fr.vals[x.X]; has || isConstLike(x.X) {
+						return envEnt{x.X, x.IsAddr}, true
+					}
+					if _, isParam := x.X.(*ssa.Parameter); isParam {
+						return envEnt{x.X, x.IsAddr}, true
+					}
+				}
+			}
+		}
+		first = false
+	}
+	return envEnt{}, false
 }
 
 func isConstLike(v ssa.Value) bool {
